@@ -394,8 +394,9 @@ def run(tier, seed):
 
     # class tags of the two known multi-extension deviations (computed, not guessed):
     #   X1: the stylesheet has an extension chain (a target occurs in an extender) and the failure is a missing match / an order difference
-    #   X2: no chain, >= 2 extensions, the Lean model of the incremental algorithm (as found) reproduces grass's selectors exactly
-    #       (tie verified below), and the failure is a missing match / an order difference
+    #   X2: no chain, extensions with >= 2 different targets, the failure is a missing match / an order difference, and — whenever the
+    #       stylesheet is inside the modelled fragment — the Lean model of the incremental algorithm reproduces grass's selectors
+    #   X3: chain with a complex extender, the rewritten selector matches too much
     tie_ok = {}
     for (what, n, rid, a, b), ans in zip(fmeta, fouts):
         if what == "tie":
@@ -403,13 +404,18 @@ def run(tier, seed):
     index_of = {t: k for k, t in enumerate(texts)}
     for i, (_, case, payload, tags) in enumerate(failing):
         n = index_of.get(case, -1)
-        if n < 0 or not tags or tags[0] not in ("too-little", "order"):
+        if n < 0 or not tags:
             continue
         meta = sheets[n][1]
-        if meta.get("chain"):
-            tags.append("X1")
-        elif meta["n_ext"] >= 2 and outs[2 * n].startswith("ok") and tie_ok.get(n, False):
-            tags.append("X2")
+        distinct_targets = len({it[3] for it in sheets[n][0] if it[0] == "ext"})
+        if tags[0] in ("too-little", "order"):
+            if meta.get("chain"):
+                tags.append("X1")
+            elif distinct_targets >= 2 and (tie_ok.get(n, False) if outs[2 * n].startswith("ok") else outs[2 * n] == "unsupported"):
+                tags.append("X2")
+                payload["model_reproduces_grass"] = outs[2 * n].startswith("ok")
+        elif tags[0] == "too-much" and meta.get("chain") and meta["complex_extender"]:
+            tags.append("X3")
         payload["tags"] = tags
     # S1 reaching trim: a failure that disappears when the model trims with the specified walk
     s1 = [(i, index_of[case]) for i, (_, case, payload, tags) in enumerate(failing)
@@ -436,7 +442,7 @@ def run(tier, seed):
     ck.cov["failing_samples_unattributed"] = [
         {"case": c, "tags": t, "why": p.get("why"), "rule": p.get("rule"), "impl": str(p.get("impl_observation"))[:300],
          "context": p.get("context"), "reversed": p.get("reversed_order"), "extender": p.get("extender")}
-        for _, c, p, t in failing if not set(t) & {"D16", "D18"}][:80]
+        for _, c, p, t in failing if not set(t) & {"D16", "D18", "X1", "X2", "X3"}][:80]
     ck.cov["failing_samples"] = [{"case": c, "tags": t, "why": p.get("why"), "rule": p.get("rule"), "impl": str(p.get("impl_observation"))[:160],
                                   "context": p.get("context")} for _, c, p, t in failing[:40]]
     if ck.cov["model_disagreements"] and not reported:
